@@ -21,6 +21,10 @@ def run(ctx):
     except ImportError:
         ctx.notes.append("layout pair correspondence not available in this build")
         return
+    # the shape pairs under Miri too (zero-sized second types, byte-aligned first types, over-aligned ones): pointer
+    # arithmetic that leaves the allocation, reads of padding, wrongly typed releases are reported even when the numbers agree
+    from vlib import miri
+    miri.simple_pass(ctx, "C12", ["union_shapes"], 1 if not ctx.thorough() else 4, "union-shape-pairs-under-miri")
     agreed, stats, failures = layout_corr.c12_pairs(ctx)
     ctx.oblige("corr:union-shape-pairs", agreed, str(failures[:2]))
     ctx.coverage["union_shape_pairs"] = stats
@@ -35,4 +39,7 @@ def run(ctx):
 
 
 def replay(ctx, path):
+    if "kind: miri" in open(path).read():
+        from vlib import miri
+        return miri.replay(ctx, path)
     histcheck.replay(ctx, path, TAGS)
